@@ -1,6 +1,6 @@
 (* Token-level entry point for property C19 (case formats: header of
    harness/src/bin/c19.rs).  Definitions only. *)
-From Erbium Require Import Lib.Base Model.ConfigAst.
+From Erbium Require Import Lib.Base Model.ConfigAst Model.ConfigLoad.
 From Coq Require Import String.
 
 Definition toks_eqb := list_eqb N.eqb.
@@ -113,15 +113,7 @@ Definition scalar_cfg (p : N) (s : list N) (res : option ip) : cfg :=
      c_raprefix := if p =? 7 then map p_len one else [];
      c_subnets := [] |}.
 
-(* apply-subnet: the end point of the expanded range is C11's subject (the
-   last host address is being added there); either end point is accepted *)
-Definition value_agrees (p : N) (model impl : list N) : bool :=
-  match p, model, impl with
-  | 2, [mc; mlo; mhi], [ic; ilo; ihi] =>
-    if mc =? 0 then (ic =? 0)
-    else (ilo =? mlo) && ((ihi =? mhi) || (ihi =? mhi + 1)) && (ic =? ihi - ilo + 1)
-  | _, _, _ => toks_eqb model impl
-  end.
+Definition value_agrees (p : N) (model impl : list N) : bool := toks_eqb model impl.
 
 (* predicate 8: the loader accepted a duration string but the value it stored
    is not the sum of its parts (silent wrap-around) *)
@@ -311,6 +303,162 @@ Definition check_fragment (ts : list N) : list N :=
   | [] => v_bad
   end.
 
+(* ---- kind 8: a whole document against the model of the whole loader -------- *)
+(* AST with values: 0 Real | 1 sign hi lo Integer | 2 n chars | 3 b | 4 n elem* | 5 n (key value)* | 7 Null | 8 Bad *)
+(* [n] tokens off the front, in one pass (Base.tok_take measures the whole rest first) *)
+Fixpoint take_cnt (ts : list N) (n : N) (acc : list N) : option (list N * list N) :=
+  if n =? 0 then Some (rev_append acc [], ts)
+  else match ts with [] => None | t :: r => take_cnt r (n - 1) (t :: acc) end.
+Definition tok_str (ts : list N) : option (list N * list N) :=
+  match ts with n :: r => take_cnt r n [] | [] => None end.
+
+(* [bound]: the length of the case line (an element count beyond it is malformed) *)
+Fixpoint tok_ast (bound : N) (fuel : nat) (ts : list N) : option (yaml * list N) :=
+  match fuel with
+  | O => None
+  | S k =>
+    match ts with
+    | 0 :: r => Some (YReal [], r)
+    | 1 :: sg :: hi :: lo :: r =>
+      let v := Z.of_N (hi * 4294967296 + lo) in Some (YInteger (if sg =? 0 then v else (- v)%Z), r)
+    | 2 :: r => match tok_str r with Some (s, r2) => Some (YString s, r2) | None => None end
+    | 3 :: b :: r => Some (YBoolean (negb (b =? 0)), r)
+    | 4 :: n :: r =>
+      if n <=? bound then
+        match tok_many (tok_ast bound k) (N.to_nat n) r with Some (xs, r2) => Some (YArray xs, r2) | None => None end
+      else None
+    | 5 :: n :: r =>
+      if n <=? bound then
+        match tok_many (fun t => match tok_ast bound k t with
+                                 | Some (key, r1) => match tok_ast bound k r1 with
+                                                     | Some (v, r2) => Some ((key, v), r2)
+                                                     | None => None
+                                                     end
+                                 | None => None
+                                 end) (N.to_nat n) r with
+        | Some (kvs, r2) => Some (YHash kvs, r2)
+        | None => None
+        end
+      else None
+    | 7 :: r => Some (YNull, r)
+    | 8 :: r => Some (YBadValue, r)
+    | _ => None
+    end
+  end.
+Definition tok_listb {A} (bound : N) (one : list N -> option (A * list N)) (ts : list N) : option (list A * list N) :=
+  match ts with n :: r => if n <=? bound then tok_many one (N.to_nat n) r else None | [] => None end.
+
+(* one row of the oracle table: string, str_ip's answer, Ipv4Addr::from_str's, str_sockaddr accepts *)
+Definition tok_orow (ts : list N) : option ((list N * (option ip * (option N * bool))) * list N) :=
+  match tok_str ts with
+  | Some (key, r) =>
+    match tok_oracle r with
+    | Some (res, r2) =>
+      match r2 with
+      | 0 :: sk :: r3 => Some ((key, (res, (None, negb (sk =? 0)))), r3)
+      | 1 :: v :: sk :: r3 => Some ((key, (res, (Some v, negb (sk =? 0)))), r3)
+      | _ => None
+      end
+    | None => None
+    end
+  | None => None
+  end.
+Definition orow_find (tbl : list (list N * (option ip * (option N * bool)))) (q : list N) :=
+  find (fun e => str_eqb (fst e) q) tbl.
+Definition o_ip tbl : list N -> option ip := fun q => match orow_find tbl q with Some e => fst (snd e) | None => None end.
+Definition o_ip4 tbl : list N -> option N := fun q => match orow_find tbl q with Some e => fst (snd (snd e)) | None => None end.
+Definition o_sock tbl : list N -> bool := fun q => match orow_find tbl q with Some e => snd (snd (snd e)) | None => false end.
+
+Definition prefix_eqb (a b : ipprefix) : bool :=
+  (p_fam a =? p_fam b) && (p_len a =? p_len b) && (p_addr a =? p_addr b).
+Fixpoint ins_sorted (x : N) (l : list N) : list N :=
+  match l with [] => [x] | y :: r => if x <=? y then x :: l else y :: ins_sorted x r end.
+Definition sortN (l : list N) : list N := fold_right ins_sorted [] l.
+Definition pair_eqb (a b : N * N) : bool := (fst a =? fst b) && (snd a =? snd b).
+
+(* first field in which the model's configuration differs from the implementation's (0 = none) *)
+Definition cfg_diff (m i : cfg) : N :=
+  if negb (list_eqb prefix_eqb (c_addresses m) (c_addresses i)) then 1
+  else if negb (list_eqb prefix_eqb (c_acl m) (c_acl i)) then 2
+  else if negb (list_eqb pair_eqb (c_routes m) (c_routes i)) then 3
+  else if negb (toks_eqb (c_pref64 m) (c_pref64 i)) then 4
+  else if negb (toks_eqb (c_raprefix m) (c_raprefix i)) then 5
+  else if negb (toks_eqb (sortN (c_subnets m)) (sortN (c_subnets i))) then 6
+  else 0.
+
+Definition class_of {A} (o : outcome A) : N := match o with Ok _ => 0 | Err _ => 1 | Panic _ => 2 end.
+Definition err_of {A} (o : outcome A) : N := match o with Err e => e | _ => 0 end.
+
+(* the first top-level key on which model and implementation disagree when
+   the key stands alone (1-based; 0: none -- the disagreement needs several keys) *)
+Fixpoint offending_key (ld : yaml -> N) (h : list (yaml * yaml)) (impl : list N) (idx : N) : N :=
+  match h, impl with
+  | kv :: r, c :: ir => if ld (YHash [kv]) =? c then offending_key ld r ir (idx + 1) else idx
+  | _, _ => 0
+  end.
+
+Definition tok_pool (ts : list N) : option (option N * list N) :=
+  match ts with 0 :: r => Some (None, r) | 1 :: n :: r => Some (Some n, r) | _ => None end.
+
+Definition check_doc8 (ts : list N) : list N :=
+  match ts with
+  | kind :: r =>
+    match tok_bytes r with
+    | Some (_, 0 :: impl) =>
+      match impl with [2] => v_viol 1 | [1] => v_ok 50 | _ => v_diff [1] end      (* not YAML: the scanner's error *)
+    | Some (_, 1 :: ndocs :: r) =>
+      let fuel := S (List.length r) in
+      let bound := N.of_nat fuel in
+      match tok_ast bound fuel r with
+      | Some (y, r) =>
+        match tok_listb bound tok_orow r with
+        | Some (tbl, r) =>
+          match tok_listb bound tok_one r with
+          | Some (keyclasses, impl) =>
+            let ld := fun d => load (o_ip tbl) (o_ip4 tbl) (o_sock tbl) fuel ndocs d in
+            let model := ld y in
+            (* only evaluated on a disagreement *)
+            let bad_key := fun _ : unit =>
+              match y with YHash h => offending_key (fun d => class_of (ld d)) h keyclasses 1 | _ => 0 end in
+            match impl with
+            | [2] => v_viol 1
+            | [1] => if kind =? 3 then v_viol 2
+                     else match model with
+                          | Err _ => v_ok (if kind =? 1 then 52 else 54)
+                          | _ => v_diff [class_of model; 0; bad_key tt]
+                          end
+            | 0 :: rest =>
+              match match tok_summary rest with
+                    | Some (c, r2) => match tok_listb bound tok_pool r2 with Some (pools, r3) => Some (c, pools, r3) | None => None end
+                    | None => None
+                    end with
+              | Some (c, pools, [sv]) =>
+                if 10 <=? sv then v_viol (serve_pred sv)
+                else if negb (cfg_safe c) then v_viol 7
+                else match model with
+                     | Ok t =>
+                       let d := cfg_diff (cfg_of_top t) c in
+                       if negb (d =? 0) then v_diff [3; d]
+                       else if negb (list_eqb (opt_eqb N.eqb) (map pool_size (t_policies t)) pools) then v_diff [3; 7]
+                       else if negb (serve_no_panic c clients) then v_diff [2]
+                       else v_ok (if kind =? 1 then 51 else if kind =? 2 then 53 else 55)
+                     | _ => v_diff [class_of model; err_of model; bad_key tt]
+                     end
+              | _ => v_bad
+              end
+            | _ => v_bad
+            end
+          | None => v_bad
+          end
+        | None => v_bad
+        end
+      | None => v_bad
+      end
+    | _ => v_bad
+    end
+  | [] => v_bad
+  end.
+
 (* kind 6: a document the harness did not run because the loader (apply-range,
    apply-subnet) or every DHCP request (`addresses`) would materialise more
    than 2^17 addresses one by one: known-finding class 1 (memory exhaustion,
@@ -337,5 +485,6 @@ Definition check_C19 (ts : list N) : list N :=
   | 5 :: r => check_name r
   | 6 :: r => match tok_bytes r with Some (_, l) => check_screened l | None => v_bad end
   | 7 :: r => check_fragment r
+  | 8 :: r => check_doc8 r
   | _ => v_bad
   end.
